@@ -7,6 +7,7 @@
 
 mod alloc_count;
 mod props_a;
+mod props_b;
 mod real;
 mod run;
 mod value;
@@ -235,6 +236,12 @@ fn main() {
             run_value(&a, M32, f)
         },
         "replay-parse" => replay_parse(&a.rest),
+        "replay-c11" => props_b::replay_c11(&a.rest),
+        "replay-c17" => props_b::replay_c17(&a.rest),
+        "replay-c18" => props_b::replay_c18(&a.rest),
+        "c11" => props_b::c11(&a),
+        "c17" => props_b::c17(&a),
+        "c18" => props_b::c18(&a),
         "c03" => props_a::c03(&a),
         "c04" => props_a::c04(&a),
         "c05" => props_a::c05(&a),
